@@ -3,8 +3,10 @@ package syntree
 import (
 	goast "go/ast"
 	"reflect"
+	"sort"
 
 	"github.com/goplus/xgo/ast"
+	"github.com/goplus/xgo/token"
 )
 
 // Child is one non-nil child node of an ast node together with the struct field it hangs off.
@@ -125,13 +127,35 @@ func collectValue(owner ast.Node, v reflect.Value, name string, out *[]Child) {
 	}
 }
 
+// OrderedChildren is Children in SOURCE order: sorted by position when every child has a valid one
+// (stable, so equal positions keep field order), else in field order.  The signature of a FuncDecl is
+// ordered by its parameter list (its Pos() is the func keyword, before receiver and name).
+func OrderedChildren(n ast.Node) []Child {
+	cs := Children(n)
+	key := func(c Child) token.Pos {
+		if ft, ok := c.Node.(*ast.FuncType); ok {
+			if _, isDecl := n.(*ast.FuncDecl); isDecl && ft.Params != nil && ft.Params.Pos().IsValid() {
+				return ft.Params.Pos()
+			}
+		}
+		return c.Node.Pos()
+	}
+	for _, c := range cs {
+		if !key(c).IsValid() {
+			return cs
+		}
+	}
+	sort.SliceStable(cs, func(i, j int) bool { return key(cs[i]) < key(cs[j]) })
+	return cs
+}
+
 // WalkEventsOf is the event sequence the statement of C18 prescribes for the tree rooted at n:
 // the node, then the sequences of its children in source order, then nil.
 func WalkEventsOf(n ast.Node, visit func(n ast.Node, depth int)) {
 	var rec func(n ast.Node, d int)
 	rec = func(n ast.Node, d int) {
 		visit(n, d)
-		for _, c := range Children(n) {
+		for _, c := range OrderedChildren(n) {
 			rec(c.Node, d+1)
 		}
 		visit(nil, d)
